@@ -8,6 +8,7 @@ package main
 
 import (
 	"bytes"
+	"fmt"
 	"reflect"
 
 	"github.com/antonmedv/expr"
@@ -63,7 +64,45 @@ func sameProgram(a, b *vm.Program) bool {
 	return len(a.Locations) == len(b.Locations)
 }
 
+// historyProbe: what Compile accepts for a value environment must not depend on
+// whether a pointer to the same type was compiled against earlier in the process
+// (PtrM has a pointer receiver: it is not in the method set of a value).
+func (r *replayer) historyProbe() {
+	acc := func(env interface{}) bool {
+		ok := false
+		guarded(func() {
+			p, err := expr.Compile("PtrM(1)", expr.Env(env))
+			ok = err == nil && p != nil
+		})
+		r.sum.Executions++
+		return ok
+	}
+	first := acc(*NewEnv(nil))
+	acc(NewEnv(nil))
+	second := acc(*NewEnv(nil))
+	if first != second {
+		r.fail(Failure{Why: "compile-depends-on-earlier-compiles", Src: "PtrM(1)", Mode: "struct",
+			Tags: []string{fmt.Sprintf("Env(value): accepted=%v; after Env(pointer) of the same type: accepted=%v", first, second)}})
+	}
+	if second {
+		var err error
+		guarded(func() {
+			p, e := expr.Compile("PtrM(1)", expr.Env(*NewEnv(nil)))
+			if e == nil {
+				_, err = expr.Run(p, *NewEnv(&Log{}))
+			}
+		})
+		if err != nil {
+			r.fail(Failure{Why: "accepted-for-a-value-environment-but-unresolvable", Src: "PtrM(1)", Mode: "struct", Got: &Got{Err: err.Error()}})
+		}
+	}
+}
+
 func (r *replayer) pureCase(c Case) {
+	if !r.probed {
+		r.probed = true
+		r.historyProbe()
+	}
 	lg := &Log{}
 	for _, m := range r.modes {
 		sample, pristine := NewEnv(nil), NewEnv(nil)
